@@ -182,11 +182,12 @@ end
 theorem count_ne_parent : ¬ (COUNT = PARENT) := by decide
 
 /-- one iteration of the `while let Ok(page_tree_id) = page_tree_ref` loop on a well-kept node -/
-theorem decCounts_step (fuel : Nat) (os : Objects) (id : ObjId) (d : Dict) (c : Int) (top : Option ObjId)
+theorem decCounts_step (seen : List ObjId) (os : Objects) (id : ObjId) (d : Dict) (c : Int) (top : Option ObjId)
     (h1 : os.get id = some (.dict d)) (h2 : (Dict.get d COUNT).bind Obj.asInt = some c)
-    (h3 : (Dict.get d PARENT).bind Obj.asRef = top) :
-    decCounts (fuel + 1) os (some id) = decCounts fuel (os.set id (.dict (Dict.set d COUNT (.int (c - 1))))) top := by
-  simp only [decCounts, h1, h2]
+    (h3 : (Dict.get d PARENT).bind Obj.asRef = top) (hs : id ∉ seen) :
+    decCounts os seen (some id) = decCounts (os.set id (.dict (Dict.set d COUNT (.int (c - 1))))) (id :: seen) top := by
+  rw [decCounts_dict os seen id d (by simpa using hs) h1]
+  simp only [decCount, h2]
   rw [Dict.get_set_c11]; simp only [count_ne_parent, if_false, h3]
 
 /-- a direct leaf of a duplicate-free leaf list is in none of the sibling subtrees -/
@@ -246,11 +247,12 @@ mutual
 /-- walking `Parent` from the node that held the deleted leaf up to (and out of) the subtree `t` decrements
 exactly the `Count`s on that path, which is what the tree without the leaf needs -/
 theorem walk_node (p q : ObjId) : ∀ (t : PT) (top : Option ObjId) (os : Objects),
-    IsParent q p t → (nodeIds t).Nodup → t.leaves.Nodup → TreeOK os top t →
-    ∃ osn k, k ≤ (nodeIds t).length ∧ (∀ fuel, decCounts (fuel + k) os (some q) = decCounts fuel osn top) ∧
+    ∀ (seen : List ObjId), IsParent q p t → (nodeIds t).Nodup → t.leaves.Nodup → TreeOK os top t →
+    (∀ x ∈ nodeIds t, x ∉ seen) →
+    ∃ osn seen', (∀ x ∈ seen', x ∈ seen ∨ x ∈ nodeIds t) ∧ decCounts os seen (some q) = decCounts osn seen' top ∧
       TreeOK osn top (removeLeaf p t) ∧ (∀ x, x ∉ nodeIds t → osn.get x = os.get x)
-  | .page _, _, _, h, _, _, _ => by cases h
-  | .pages id ks, top, os, hpar, hnd, hlv, hok => by
+  | .page _, _, _, _, h, _, _, _, _ => by cases h
+  | .pages id ks, top, os, seen, hpar, hnd, hlv, hok, hseen => by
     simp only [TreeOK] at hok
     obtain ⟨⟨d, h1, h2, h3⟩, hkids⟩ := hok
     simp only [nodeIds, List.nodup_cons] at hnd
@@ -261,8 +263,11 @@ theorem walk_node (p q : ObjId) : ∀ (t : PT) (top : Option ObjId) (os : Object
     simp only [IsParent] at hpar
     rcases hpar with ⟨hq, hdl⟩ | hdeep
     · subst hq
-      refine ⟨os.set id (.dict (Dict.set d COUNT (.int (((PT.leavesL ks).length : Int) - 1)))), 1, by simp [nodeIds], ?_, ?_, ?_⟩
-      · intro fuel; exact decCounts_step fuel os id d _ top h1 h2 h3
+      refine ⟨os.set id (.dict (Dict.set d COUNT (.int (((PT.leavesL ks).length : Int) - 1)))), id :: seen, ?_, ?_, ?_, ?_⟩
+      · intro x hx; rcases List.mem_cons.mp hx with rfl | hx
+        · exact Or.inr (by simp [nodeIds])
+        · exact Or.inl hx
+      · exact decCounts_step seen os id d _ top h1 h2 h3 (hseen id (by simp [nodeIds]))
       · simp only [removeLeaf, TreeOK]
         refine ⟨⟨Dict.set d COUNT (.int (((PT.leavesL ks).length : Int) - 1)), by simp [Objects.get_set, h1], by simp [Dict.get_set_c11, Obj.asInt, hcount], ?_⟩, ?_⟩
         · rw [Dict.get_set_c11]; simp only [count_ne_parent, if_false, h3]
@@ -275,13 +280,22 @@ theorem walk_node (p q : ObjId) : ∀ (t : PT) (top : Option ObjId) (os : Object
         simp only [nodeIds, List.mem_cons, not_or] at hx
         have : id ≠ x := fun e => hx.1 e.symm
         simp [Objects.get_set, this]
-    · obtain ⟨osn1, k1, wk, w1, w2, w3⟩ := walk_list p q ks (some id) os hdeep hnd.2 hlv hkids
+    · obtain ⟨osn1, seen1, wk, w1, w2, w3⟩ := walk_list p q ks (some id) os seen hdeep hnd.2 hlv hkids
+        (fun x hx => hseen x (by simp [nodeIds, hx]))
       have hid1 : osn1.get id = some (.dict d) := by rw [w3 id hnd.1]; exact h1
-      refine ⟨osn1.set id (.dict (Dict.set d COUNT (.int (((PT.leavesL ks).length : Int) - 1)))), k1 + 1, by simp [nodeIds]; omega, ?_, ?_, ?_⟩
-      · intro fuel
-        have e : fuel + (k1 + 1) = (fuel + 1) + k1 := by omega
-        rw [e, w1 (fuel + 1)]
-        exact decCounts_step fuel osn1 id d _ top hid1 h2 h3
+      have hidns : id ∉ seen1 := by
+        intro hm
+        rcases wk id hm with h | h
+        · exact hseen id (by simp [nodeIds]) h
+        · exact hnd.1 h
+      refine ⟨osn1.set id (.dict (Dict.set d COUNT (.int (((PT.leavesL ks).length : Int) - 1)))), id :: seen1, ?_, ?_, ?_, ?_⟩
+      · intro x hx; rcases List.mem_cons.mp hx with rfl | hx
+        · exact Or.inr (by simp [nodeIds])
+        · rcases wk x hx with h | h
+          · exact Or.inl h
+          · exact Or.inr (by simp [nodeIds, h])
+      · rw [w1]
+        exact decCounts_step seen1 osn1 id d _ top hid1 h2 h3 hidns
       · simp only [removeLeaf, TreeOK]
         refine ⟨⟨Dict.set d COUNT (.int (((PT.leavesL ks).length : Int) - 1)), by simp [Objects.get_set, hid1], by simp [Dict.get_set_c11, Obj.asInt, hcount], ?_⟩, ?_⟩
         · rw [Dict.get_set_c11]; simp only [count_ne_parent, if_false, h3]
@@ -295,11 +309,12 @@ theorem walk_node (p q : ObjId) : ∀ (t : PT) (top : Option ObjId) (os : Object
         have : id ≠ x := fun e => hx.1 e.symm
         rw [Objects.get_set]; simp only [this, if_false]; exact w3 x hx.2
 theorem walk_list (p q : ObjId) : ∀ (ks : List PT) (top : Option ObjId) (os : Objects),
-    IsParentL q p ks → (nodeIdsL ks).Nodup → (PT.leavesL ks).Nodup → TreeOKL os top ks →
-    ∃ osn k, k ≤ (nodeIdsL ks).length ∧ (∀ fuel, decCounts (fuel + k) os (some q) = decCounts fuel osn top) ∧
+    ∀ (seen : List ObjId), IsParentL q p ks → (nodeIdsL ks).Nodup → (PT.leavesL ks).Nodup → TreeOKL os top ks →
+    (∀ x ∈ nodeIdsL ks, x ∉ seen) →
+    ∃ osn seen', (∀ x ∈ seen', x ∈ seen ∨ x ∈ nodeIdsL ks) ∧ decCounts os seen (some q) = decCounts osn seen' top ∧
       TreeOKL osn top (removeLeafL p ks) ∧ (∀ x, x ∉ nodeIdsL ks → osn.get x = os.get x)
-  | [], _, _, h, _, _, _ => by cases h
-  | t :: ts, top, os, hpar, hnd, hlv, hok => by
+  | [], _, _, _, h, _, _, _, _ => by cases h
+  | t :: ts, top, os, seen, hpar, hnd, hlv, hok, hseen => by
     simp only [TreeOKL] at hok
     simp only [nodeIdsL] at hnd
     simp only [PT.leavesL] at hlv
@@ -307,10 +322,11 @@ theorem walk_list (p q : ObjId) : ∀ (ks : List PT) (top : Option ObjId) (os : 
     have hlv' := List.nodup_append.mp hlv
     simp only [IsParentL] at hpar
     rcases hpar with hhead | htail
-    · obtain ⟨osn, k, wk, w1, w2, w3⟩ := walk_node p q t top os hhead hnd'.1 hlv'.1 hok.1
+    · obtain ⟨osn, k, wk, w1, w2, w3⟩ := walk_node p q t top os seen hhead hnd'.1 hlv'.1 hok.1
+        (fun x hx => hseen x (by simp [nodeIdsL, hx]))
       have hpt : p ∈ t.leaves := isParent_mem q p t hhead
       have hpts : p ∉ PT.leavesL ts := fun h => hlv'.2.2 p hpt p h rfl
-      refine ⟨osn, k, by simp [nodeIdsL]; omega, w1, ?_, ?_⟩
+      refine ⟨osn, k, fun x hx => (wk x hx).imp id (fun h => by simp [nodeIdsL, h]), w1, ?_, ?_⟩
       · have hts : TreeOKL osn top ts := treeOKL_frame os osn ts top hok.2 (fun x hx => w3 x (fun hx' => hnd'.2.2 x hx' x hx rfl))
         cases t with
         | page id => cases hhead
@@ -321,11 +337,12 @@ theorem walk_list (p q : ObjId) : ∀ (ks : List PT) (top : Option ObjId) (os : 
       · intro x hx
         simp only [nodeIdsL, List.mem_append, not_or] at hx
         exact w3 x hx.1
-    · obtain ⟨osn, k, wk, w1, w2, w3⟩ := walk_list p q ts top os htail hnd'.2.1 hlv'.2.1 hok.2
+    · obtain ⟨osn, k, wk, w1, w2, w3⟩ := walk_list p q ts top os seen htail hnd'.2.1 hlv'.2.1 hok.2
+        (fun x hx => hseen x (by simp [nodeIdsL, hx]))
       have hpts : p ∈ PT.leavesL ts := isParentL_mem q p ts htail
       have hpt : p ∉ t.leaves := fun h => hlv'.2.2 p h p hpts rfl
       have ht : TreeOK osn top t := treeOK_frame os osn t top hok.1 (fun x hx => w3 x (fun hx' => hnd'.2.2 x hx x hx' rfl))
-      refine ⟨osn, k, by simp [nodeIdsL]; omega, w1, ?_, ?_⟩
+      refine ⟨osn, k, fun x hx => (wk x hx).imp id (fun h => by simp [nodeIdsL, h]), w1, ?_, ?_⟩
       · cases t with
         | page id =>
           have : ¬ id = p := fun e => hpt (by simp [PT.leaves, e])
@@ -375,21 +392,16 @@ end
 /-- **C11, delete_pages_count.**  Let the document hold a page tree `t` with exact bookkeeping (`TreeOK`:
 every `Pages` node's `Count` = number of leaf pages below it, `Parent` = its parent; the root has no
 `Parent` reference), pairwise distinct node ids and no page listed twice, and let `q` be the node that had
-the leaf `p` as a direct child.  Then the `Parent` walk of `delete_pages`, run with the fuel the call uses,
-terminates, and afterwards the bookkeeping is exact for the tree WITHOUT `p`: on the path from `q` to the
-root every `Count` went down by one, every other object is untouched. -/
+the leaf `p` as a direct child.  Then the `Parent` walk of `delete_pages` (which since the fix of F-C11-c
+stops at an ancestor it has seen before, and so always returns) leaves the bookkeeping exact for the tree
+WITHOUT `p`: on the path from `q` to the root every `Count` went down by one, every other object is untouched. -/
 theorem delete_pages_count (p q : ObjId) (t : PT) (os : Objects)
     (hpar : IsParent q p t) (hnd : (nodeIds t).Nodup) (hlv : t.leaves.Nodup) (hok : TreeOK os none t) :
-    ∃ os', decCounts (os.length + 1) os (some q) = some os' ∧ TreeOK os' none (removeLeaf p t) ∧
-      (∀ x, x ∉ nodeIds t → os'.get x = os.get x) := by
-  obtain ⟨osn, k, hk, w1, w2, w3⟩ := walk_node p q t none os hpar hnd hlv hok
-  have hlen : (nodeIds t).length ≤ os.length := by
-    have := nodup_subset_length hnd (treeOK_nodes_keys os t none hok)
-    simpa [Objects.keys] using this
-  refine ⟨osn, ?_, w2, w3⟩
-  have e : os.length + 1 = (os.length + 1 - k) + k := by omega
-  rw [e, w1]
-  cases h : os.length + 1 - k <;> simp [decCounts]
+    TreeOK (decCounts os [] (some q)) none (removeLeaf p t) ∧
+      (∀ x, x ∉ nodeIds t → (decCounts os [] (some q)).get x = os.get x) := by
+  obtain ⟨osn, seen', _, w1, w2, w3⟩ := walk_node p q t none os [] hpar hnd hlv hok (by simp)
+  rw [w1, decCounts_none]
+  exact ⟨w2, w3⟩
 
 /- non-vacuity: a two-level tree with exact counts -/
 example : TreeOK [((1,0), .dict [(COUNT, .int 2)]), ((2,0), .dict [(COUNT, .int 1), (PARENT, .ref 1 0)])] none
@@ -538,7 +550,7 @@ end
 /-- **C11, `delete_pages` on one page: the `Count` bookkeeping end to end.**  The document holds a page
 tree `t` with exact bookkeeping, distinct node ids, no page listed twice; page number `n` of the page list
 is the leaf `p`, a dictionary whose `Parent` is the node `q` that has it as a direct child; node and page
-dictionaries have distinct keys.  Then `delete_pages(&[n])`'s iteration returns, the page object is gone,
+dictionaries have distinct keys.  Then after `delete_pages(&[n])`'s iteration the page object is gone,
 and the bookkeeping is exact for the tree without `p`. -/
 theorem deletePage1_count (d : Doc) (pages : List ObjId) (n : Nat) (p q : ObjId) (t : PT) (pd : Dict)
     (hn0 : n ≠ 0) (hpg : pages[n - 1]? = some p)
@@ -546,7 +558,7 @@ theorem deletePage1_count (d : Doc) (pages : List ObjId) (n : Nat) (p q : ObjId)
     (hpn : p ∉ nodeIds t) (hdup : NodesNoDup d.objects (nodeIds t))
     (hpo : d.objects.get p = some (.dict pd)) (hpdn : NoDup pd)
     (hpp : (Dict.get pd PARENT).bind Obj.asRef = some q) (hqp : q ≠ p) :
-    ∃ d', deletePage1 pages d n = some d' ∧ d'.objects.get p = none ∧ TreeOK d'.objects none (removeLeaf p t) := by
+    (deletePage1 pages d n).objects.get p = none ∧ TreeOK (deletePage1 pages d n).objects none (removeLeaf p t) := by
   have hD := treeOK_delete d p t none hok (by simp) hpn hdup
   -- the object handed back by delete_object still names q as its Parent
   have hret : ∃ pd', (deleteObject d p).2 = some (.dict pd') ∧ (Dict.get pd' PARENT).bind Obj.asRef = some q := by
@@ -558,18 +570,21 @@ theorem deletePage1_count (d : Doc) (pages : List ObjId) (n : Nat) (p q : ObjId)
     · simp only [hvis, if_true, Option.map_some, e1]; exact ⟨pd1, rfl, b1⟩
     · simp only [hvis, if_false]; exact ⟨pd, rfl, hpp⟩
   obtain ⟨pd', hr1, hr2⟩ := hret
-  obtain ⟨os', w1, w2, w3⟩ := delete_pages_count p q t (deleteObject d p).1.objects hpar hnd hlv hD
-  refine ⟨{ (deleteObject d p).1 with objects := os' }, ?_, ?_, w2⟩
-  · unfold deletePage1
+  obtain ⟨w2, w3⟩ := delete_pages_count p q t (deleteObject d p).1.objects hpar hnd hlv hD
+  have hdp : deletePage1 pages d n =
+      { (deleteObject d p).1 with objects := decCounts (deleteObject d p).1.objects [] (some q) } := by
+    unfold deletePage1
     simp only [hn0, if_false, hpg]
     cases hdo : deleteObject d p with
     | mk d1 ro =>
-      rw [hdo] at hr1 w1
-      simp only at hr1 w1
+      rw [hdo] at hr1
+      simp only at hr1
       subst hr1
-      simp only [Obj.asDict, Option.bind_some, hr2, w1, Option.map_some, hdo]
-  · simp only
-    rw [w3 p hpn]
-    exact (delete_effect d p).1
+      simp only [Obj.asDict, Option.bind_some, hr2]
+  rw [hdp]
+  refine ⟨?_, w2⟩
+  simp only
+  rw [w3 p hpn]
+  exact (delete_effect d p).1
 
 end Lopdf.Ed
